@@ -448,7 +448,7 @@ func init() {
 	replaceOutside("C13", "data-race freedom, true concurrency, gzip pools", "data-race freedom, true concurrency, the proxy's stream pumps: no goroutine model (N/A part, stated); pooled-buffer aliasing and pooled gzip reader / writer reuse are decided across consecutive requests")
 
 	typed := "typed path variables through ServeHTTP: int32 (every plain ASCII capture of 1..2 bytes, so 0 and -0 are included), bool (false / true / 0 / False) and a field with a distinct JSON name, each with and without a rival query parameter naming the same field (by proto or JSON name)"
-	ext("C07", typed, HarnessSpec{Name: "VerifH_serveHTTP_typed", Covers: []string{"zero-capture-with-rival", "rival-by-json-name", "query-rival", "int", "bool"}})
+	ext("C07", typed, HarnessSpec{Name: "VerifH_serveHTTP_typed", Covers: []string{"zero-capture-with-rival", "rival-by-json-name", "query-rival", "int", "bool", "oneof-member"}})
 	ext("C01", typed, HarnessSpec{Name: "VerifH_serveHTTP_typed", Covers: []string{"int", "bool", "int-rejected", "bool-rejected", "json-name-field"}})
 	ext("C03", typed, HarnessSpec{Name: "VerifH_serveHTTP_typed", Covers: []string{"int", "bool", "int-rejected", "bool-rejected"}})
 
@@ -549,4 +549,9 @@ func init() {
 
 	ext("C03", "HttpBody request bodies: every chunk handed to the handler carries the REQUEST's content type (not the type the reply is negotiated to)",
 		HarnessSpec{Name: "VerifH_http_recv_body", Covers: []string{"upload", "multi-chunk"}})
+
+	ext("C08", "stream codec limits (shared with C17): ReadNext must report a message longer than the limit as an error, never deliver it; compressed replies exactly at / one past the send limit",
+		HarnessSpec{Name: "VerifH_json_wire", Covers: []string{"over-limit", "message"}},
+		HarnessSpec{Name: "VerifH_proto_wire", Covers: []string{"over-limit", "message"}},
+		HarnessSpec{Name: "VerifH_grpc_send", Covers: []string{"compressed-at-limit", "compressed-refused"}})
 }
